@@ -146,6 +146,7 @@ pub fn run_one(sc: &Scenario, op: &'static OpDef, input: &Input, prefix_inputs: 
         seed: cfg.sched_seed,
         replay: cfg.decisions.clone(),
         thread_start: Some(seams::mark_sim_thread),
+        stack: 16 << 20,
         ..sim::Config::default()
     };
     let from_worker = cfg.from_worker;
@@ -678,6 +679,8 @@ pub fn run(a: &Args) -> i32 {
         if trace {
             eprintln!("run {} {:?} segments={}", r, sc, input.segments);
         }
+        // breadcrumb for post-mortems: which scenario was in flight if this process dies
+        let _ = std::fs::write(format!("{}/C20-shard{}.current", a.out_dir, a.shard_i), format!("run {} {}", r, serde_json::to_string(&sc).unwrap_or_default()));
         // S7 + fresh-process clause: the reference outcome is first computed in a pristine
         // process (a fresh child of a server forked before this shard ran anything), under
         // memory and time limits.  (a) If it does not finish there, the scenario is skipped:
